@@ -70,20 +70,45 @@ func vfH_C19_event() {
 		}
 	}
 	set := !clearMode
-	var pending [][16]byte // waits that had to wait
+	vfSetDBTime(env.db, vfBaseTime)
+	var pending [][16]byte // waits that had to wait (5 s)
+	var short [][16]byte   // waits that had to wait with a 2 s timeout
 	for step := 0; step < 4; step++ {
 		e := ev[vfChoice(vfName("who", step), 2)]
 		n := len(env.replies)
-		switch vfChoice(vfName("op", step), 5) {
+		switch vfChoice(vfName("op", step), 7) {
+		case 5:
+			// a shorter wait
+			k := len(cl.reqs)
+			_, err := e.Wait(2)
+			if set {
+				vfAssert(err == nil, "C19: Event.Wait on a set event did not return at once")
+			} else {
+				vfAssert(err != nil, "C19: Event.Wait returned although the event is not set")
+				if len(cl.reqs) > k {
+					short = append(short, cl.reqs[len(cl.reqs)-1])
+				}
+			}
+		case 6:
+			// 3 s pass: the 2 s waits give up (TIMEOUT); the 5 s waits keep waiting — nobody has set the event
+			if len(short) == 0 {
+				continue
+			}
+			vfTick(env, 3)
+			for _, p := range short {
+				vfAssert(vfCountResult(env.replies[n:], p, protocol.RESULT_TIMEOUT) == 1, "C19: an Event.Wait whose timeout passed was not answered TIMEOUT")
+			}
+			short = nil
+			vfReach("short-wait-timed-out")
 		case 0:
 			_, err := e.Set()
 			vfAssert(err == nil, "C19: Event.Set failed")
 			set = true
 			// every pending wait is released by the set, and only now
-			for _, p := range pending {
+			for _, p := range append(append([][16]byte(nil), pending...), short...) {
 				vfAssert(vfCountResult(env.replies[n:], p, protocol.RESULT_SUCCED) == 1, "C19: Event.Set did not release a waiting Event.Wait")
 			}
-			pending = nil
+			pending, short = nil, nil
 		case 1:
 			_, err := e.Clear()
 			vfAssert(err == nil, "C19: Event.Clear failed")
@@ -111,7 +136,7 @@ func vfH_C19_event() {
 				}
 			}
 		}
-		for _, p := range pending {
+		for _, p := range append(append([][16]byte(nil), pending...), short...) {
 			vfAssert(vfCountResult(env.replies, p, protocol.RESULT_SUCCED) == 0, "C19: a waiting Event.Wait was released although the event has not been set")
 		}
 	}
